@@ -763,13 +763,6 @@ def _cls_fe_assign(case, obs, failure):
             and op is not None and op[0] == 'setF')
 
 
-def _cls_li_shadow(case, obs, failure):
-    """a_limits and a_min/a_max both exist: checkLimits returns after the a_limits test, a_min/a_max are ignored"""
-    L = case['layout']
-    return (case['kind'] == 'li' and failure['class'] == 'limits-respected' and L['lim'] and (L['min'] or L['max'])
-            and bool(failure.get('outside')) and all(o.startswith('a_min=') or o.startswith('a_max=') for o in failure['outside']))
-
-
 def _cls_struct_write_partial(case, obs, failure):
     """generated write_<struct> aborted by a raising member write after earlier members were written: the struct keeps the
     old values of those members (the disagreement arises at the failing struct write itself)"""
@@ -812,7 +805,6 @@ FINDING_CLASSIFIERS = {
     'member_assign_with_combined_methods': _cls_member_assign,
     'floatenum_initial_cache': _cls_fe_initial,
     'floatenum_assign_float': _cls_fe_assign,
-    'limits_tuple_shadows_min_max': _cls_li_shadow,
 }
 
 
